@@ -22,11 +22,17 @@ import (
 
 	"github.com/sourcegraph/jsonrpc2"
 
+	"github.com/open-policy-agent/opa/v1/ast"
+
 	rbundle "github.com/styrainc/regal/bundle"
 	"github.com/styrainc/regal/internal/lsp/cache"
 	"github.com/styrainc/regal/internal/lsp/log"
 	"github.com/styrainc/regal/internal/lsp/types"
+	rparse "github.com/styrainc/regal/internal/parse"
 	"github.com/styrainc/regal/pkg/config"
+	"github.com/styrainc/regal/pkg/linter"
+	"github.com/styrainc/regal/pkg/report"
+	"github.com/styrainc/regal/pkg/rules"
 
 	"gopkg.in/yaml.v3"
 )
@@ -556,6 +562,8 @@ type vEvent struct {
 	File string `json:"file,omitempty"` // subject
 	To   string `json:"to,omitempty"`   // rename target
 	Text string `json:"text,omitempty"` // contents (open/change/create) or config yaml (config)
+	// burst mode only: pause before the event is delivered (to let a worker get into the middle of a job)
+	SleepMs int `json:"sleep_ms,omitempty"`
 }
 
 // vWorld is the editor's view: which files exist and what their current (possibly unsaved) text is.
@@ -650,6 +658,12 @@ func (s *vSrv) deliver(e vEvent, w *vWorld, sync bool) error {
 			Files: []types.WorkspaceDidDeleteFilesParamsDeletedFile{{URI: s.uri(e.File)}},
 		})
 	case "rename":
+		// the editor saves the buffer before the file is moved (otherwise the workspace-state poller,
+		// which reads the disk, and the didRenameFiles handler, which reads the cache, see different texts)
+		if err := os.WriteFile(p, []byte(w.cur[e.File]), 0o644); err != nil {
+			return err
+		}
+
 		if err := os.Rename(p, filepath.Join(s.dir, e.To)); err != nil {
 			return err
 		}
@@ -768,6 +782,10 @@ func vRunHistory(job vRun, keepLog bool) (res vRun) {
 	for i, e := range events {
 		if !w.applicable(e) {
 			return fail("history", fmt.Errorf("event %d (%+v) is not applicable", i, e))
+		}
+
+		if e.SleepMs > 0 && mode != "step" {
+			time.Sleep(time.Duration(e.SleepMs) * time.Millisecond)
 		}
 
 		if err := s.deliver(e, w, mode == "step"); err != nil {
@@ -928,5 +946,224 @@ func TestVerifC15Replay(t *testing.T) {
 		if err := enc.Encode(r); err != nil {
 			t.Fatal(err)
 		}
+	}
+}
+
+// ---------------------------------------------------------------------------------- oracle tables
+
+// vOracleIn: the linter oracles of Model/Lsp.v are tabulated on the real linter for exactly the keys
+// the model's predictions depend on (computed by Coq in a first pass).
+type vOracleIn struct {
+	Configs  []string `json:"configs"`  // yaml text per config id
+	URIs     []string `json:"uris"`     // file name per uri id
+	Contents []string `json:"contents"` // text per content id
+	FKeys    [][3]int `json:"fkeys"`    // (config, uri, content)
+	AKeys    []vAKey  `json:"akeys"`
+}
+
+type vAKey struct {
+	K int      `json:"k"`
+	M [][3]int `json:"m"` // (uri, config under which collected, content)
+}
+
+type vOracleOut struct {
+	Parses []bool                         `json:"parses"`
+	PErr   map[string][]string            `json:"perr"`  // "u,c" -> parse error diagnostics (unparseable contents only)
+	FD     map[string][]string            `json:"fd"`    // "k,u,c" -> diagnostics
+	AR     []map[string][]string          `json:"ar"`    // per akey: uri id -> diagnostics
+	Rules  []map[string][]string          `json:"rules"` // per config: {"nonagg":[...], "agg":[...]}
+	Errors []string                       `json:"errors,omitempty"`
+}
+
+const vOracleDir = "/verif-oracle-root"
+
+type vFileLint struct {
+	diags []string
+	aggs  map[string][]report.Aggregate
+	err   error
+}
+
+func vOracleFile(ctx context.Context, cfg *config.Config, uri, text string) vFileLint {
+	module, err := rparse.ModuleWithOpts(uri, text, rparse.ParserOptions())
+	if err != nil {
+		return vFileLint{err: err}
+	}
+
+	input := rules.NewInput(map[string]string{uri: text}, map[string]*ast.Module{uri: module})
+	li := linter.NewLinter().WithCollectQuery(true).WithExportAggregates(true).WithInputModules(&input).
+		WithPathPrefix("file://" + vOracleDir)
+
+	if cfg != nil {
+		li = li.WithUserConfig(*cfg)
+	}
+
+	rpt, err := li.Lint(ctx)
+	if err != nil {
+		return vFileLint{err: err}
+	}
+
+	fd := convertReportToDiagnostics(&rpt, "file://"+vOracleDir)
+	own := map[string][]report.Aggregate{}
+
+	for k, as := range rpt.Aggregates {
+		for _, a := range as {
+			if a.SourceFile() == uri {
+				own[k] = append(own[k], a)
+			}
+		}
+	}
+
+	return vFileLint{diags: vCanonList(fd[uri], vOracleDir), aggs: own}
+}
+
+func TestVerifC15Oracle(t *testing.T) {
+	in, out := os.Getenv("VERIF_IN"), os.Getenv("VERIF_OUT")
+	if in == "" || out == "" {
+		t.Skip("VERIF_IN / VERIF_OUT not set")
+	}
+
+	vHermeticHome()
+
+	var q vOracleIn
+
+	bs, err := os.ReadFile(in)
+	if err != nil {
+		t.Fatal(err)
+	}
+
+	if err := json.Unmarshal(bs, &q); err != nil {
+		t.Fatal(err)
+	}
+
+	ctx := context.Background()
+	root := "file://" + vOracleDir
+	res := vOracleOut{PErr: map[string][]string{}, FD: map[string][]string{}}
+
+	cfgs := make([]*config.Config, len(q.Configs))
+	for i, y := range q.Configs {
+		if cfgs[i], err = vLoadConfig(y); err != nil {
+			t.Fatal(err)
+		}
+
+		probe := NewLanguageServer(ctx, &LanguageServerOptions{LogLevel: log.LevelOff})
+		if err := probe.loadEnabledRulesFromConfig(ctx, *cfgs[i]); err != nil {
+			t.Fatal(err)
+		}
+
+		res.Rules = append(res.Rules, map[string][]string{
+			"nonagg": slices.Clone(probe.getEnabledNonAggregateRules()), "agg": slices.Clone(probe.getEnabledAggregateRules()),
+		})
+	}
+
+	// parse table and parse-error diagnostics (via updateParse on a scratch cache)
+	probe := NewLanguageServer(ctx, &LanguageServerOptions{LogLevel: log.LevelOff})
+	bis := probe.builtinsForCurrentCapabilities()
+
+	for ci, text := range q.Contents {
+		_, perr := rparse.ModuleWithOpts(root+"/x.rego", text, rparse.ParserOptions())
+		res.Parses = append(res.Parses, perr == nil)
+
+		if perr == nil {
+			continue
+		}
+
+		for ui, name := range q.URIs {
+			c := cache.NewCache()
+			u := root + "/" + name
+			c.SetFileContents(u, text)
+
+			if _, err := updateParse(ctx, c, NewRegalStore(), u, bis, probe.regoVersionForURI(u)); err != nil {
+				res.Errors = append(res.Errors, fmt.Sprintf("updateParse(%s, content %d): %v", name, ci, err))
+			}
+
+			pe, _ := c.GetParseErrors(u)
+			res.PErr[fmt.Sprintf("%d,%d", ui, ci)] = vCanonList(pe, vOracleDir)
+		}
+	}
+
+	// every (config, uri, content) that occurs as a file key or inside an aggregate key
+	type fk [3]int
+
+	need := map[fk]bool{}
+	for _, k := range q.FKeys {
+		need[fk(k)] = true
+	}
+
+	for _, a := range q.AKeys {
+		for _, e := range a.M {
+			need[fk{e[1], e[0], e[2]}] = true
+		}
+	}
+
+	fks := make([]fk, 0, len(need))
+	for k := range need {
+		fks = append(fks, k)
+	}
+
+	sort.Slice(fks, func(i, j int) bool { return fks[i][0]*1e6+fks[i][1]*1e3+fks[i][2] < fks[j][0]*1e6+fks[j][1]*1e3+fks[j][2] })
+
+	lints := vParallel(len(fks), vWorkers(), func(i int) vFileLint {
+		k := fks[i]
+
+		return vOracleFile(ctx, cfgs[k[0]], root+"/"+q.URIs[k[1]], q.Contents[k[2]])
+	})
+
+	byKey := map[fk]vFileLint{}
+
+	for i, k := range fks {
+		byKey[k] = lints[i]
+		if lints[i].err != nil {
+			res.Errors = append(res.Errors, fmt.Sprintf("lint %v: %v", k, lints[i].err))
+
+			continue
+		}
+
+		res.FD[fmt.Sprintf("%d,%d,%d", k[0], k[1], k[2])] = lints[i].diags
+	}
+
+	res.AR = vParallel(len(q.AKeys), vWorkers(), func(i int) map[string][]string {
+		a := q.AKeys[i]
+		all := map[string][]report.Aggregate{}
+
+		for _, e := range a.M {
+			for k, as := range byKey[fk{e[1], e[0], e[2]}].aggs {
+				all[k] = append(all[k], as...)
+			}
+		}
+
+		outm := map[string][]string{}
+		if len(all) == 0 {
+			return outm // the linter refuses to run without input: nothing is reported
+		}
+
+		li := linter.NewLinter().WithPathPrefix(root).WithAggregates(all)
+		if cfgs[a.K] != nil {
+			li = li.WithUserConfig(*cfgs[a.K])
+		}
+
+		rpt, err := li.Lint(ctx)
+		if err != nil {
+			outm["error"] = []string{err.Error()}
+
+			return outm
+		}
+
+		for u, ds := range convertReportToDiagnostics(&rpt, root) {
+			name := strings.TrimPrefix(u, root+"/")
+			if i := slices.Index(q.URIs, name); i >= 0 {
+				outm[strconv.Itoa(i)] = vCanonList(ds, vOracleDir)
+			}
+		}
+
+		return outm
+	})
+
+	ob, err := json.Marshal(res)
+	if err != nil {
+		t.Fatal(err)
+	}
+
+	if err := os.WriteFile(out, ob, 0o644); err != nil {
+		t.Fatal(err)
 	}
 }
